@@ -33,9 +33,14 @@ def sharing_histories(seed, n):
         if kind == 'three-way':
             h += [W(c, X), T([c], **par()), W(c, Y), CI([c], **par()), W(b, Y), CI([b], **par())]
         victim = rng.choice([a, b]) if kind != 'copy-share' else rng.choice([a, c])
-        op = rng.choice(['remove', 'remove-all', 'untrack', 'remove-force'])
+        op = rng.choice(['remove', 'remove-all', 'untrack', 'remove-force', 'remove-only', 'remove-only'])
         if op == 'untrack':
             h.append({'op': 'untrack', 'targets': [victim]})
+        elif op == 'remove-only':
+            # --only-version: one recorded version of one of the targets (shared or not with paths outside the targets;
+            # with two targets that both hold the version the designation is "not unique" and nothing may happen)
+            tg = rng.choice([[victim], [victim], [a, b]])
+            h.append({'op': 'remove', 'targets': tg, 'only_version': [rng.choice(tg), rng.choice([0, 0, 1])], 'force': rng.random() < 0.15})
         else:
             h.append({'op': 'remove', 'targets': [victim], 'all_versions': op == 'remove-all', 'force': op == 'remove-force'})
         # what is left must still be restorable / removable
